@@ -33,7 +33,7 @@ func main() {
 	out := flag.String("out", "", "result file (JSON)")
 	bounds := flag.String("bounds", "", "comma separated name=value bounds")
 	timeout := flag.Int("timeout-ms", 60000, "solver timeout per query")
-	solvers := flag.String("solvers", "z3,z3-new,cvc5", "solver portfolio order")
+	solvers := flag.String("solvers", "z3-new,z3,cvc5", "solver portfolio order")
 	loop := flag.Int("loop", 64, "loop unwinding bound")
 	steps := flag.Int("steps", 2000000, "instruction budget per path")
 	list := flag.Bool("list", false, "list harnesses and exit")
